@@ -41,6 +41,11 @@ def with_comments(p, salt):
             lines.append("#endif")
             n += 1
             continue
+        if hsh == 4:
+            # every form of preprocessor line in turn (define, undef, include, error, warning, line markers, continued lines ...)
+            from .. import perturb as _pt
+            lines.extend(_pt.CPP[1 + (i + salt) % len(_pt.CPP)])
+            n += 1
         lines.append(line)
     return "\n".join(lines) + "\n", n
 
